@@ -1,4 +1,5 @@
 import GroupbyVerif.Lemmas.Factorize
+import GroupbyVerif.Lemmas.Monotonic
 
 /-!
 # C02 — Factorization is a faithful partition of the rows
@@ -257,5 +258,57 @@ example : weightCodeSum [1, 0, 2] [2, 2, 3] = some 8 ∧ Bounded [1, 0, 2] [2, 2
 /-- a null in the LAST key yields the null code (the pinned `_weight_code_sum` returned a valid code here) -/
 example : weightCodeSum [1, -1] [2, 3] = none := by decide
 example : groupSortedIndexer [1, -1, 0, 1] 2 = [2, 0, 3] := by decide
+
+/-! ## the sorted-prefix route (`_monotonic_factorization`) -/
+
+/-- the run detection on a sorted prefix is a faithful factorization of that prefix, for every input: the prefix
+`xs[:cut]` is null-free and non-decreasing and cannot be extended (the next element is a null or smaller), there is one
+code per prefix row, the labels are strictly increasing (hence pairwise distinct), and the label at a row's code
+has the row's key.  `lt` / `gt` may answer anything when a null is involved. -/
+theorem monotonic_factorization_faithful {α : Type} (key : α → Nat) (isNull : α → Bool) (lt gt : α → α → Bool)
+    (hord : Mono.OrderOK key isNull lt gt) (xs : List α) :
+    Mono.Post key isNull xs (monotonicFactorization lt gt isNull xs) :=
+  Mono.monotonic_post key isNull lt gt hord xs
+
+/-- equal codes within the prefix mean equal keys, and vice versa -/
+theorem monotonic_codes_eq_iff {α : Type} (key : α → Nat) (isNull : α → Bool) (lt gt : α → α → Bool)
+    (hord : Mono.OrderOK key isNull lt gt) (xs : List α) (i j : Nat)
+    (hi : i < (monotonicFactorization lt gt isNull xs).1) (hj : j < (monotonicFactorization lt gt isNull xs).1)
+    (ci cj : Nat) (xi xj : α)
+    (hci : (monotonicFactorization lt gt isNull xs).2.1[i]? = some ci) (hcj : (monotonicFactorization lt gt isNull xs).2.1[j]? = some cj)
+    (hxi : xs[i]? = some xi) (hxj : xs[j]? = some xj) :
+    ci = cj ↔ key xi = key xj := by
+  have post := Mono.monotonic_post key isNull lt gt hord xs
+  obtain ⟨c1, l1, x1, a1, a2, a3, a4⟩ := post.faithful i hi
+  obtain ⟨c2, l2, x2, b1, b2, b3, b4⟩ := post.faithful j hj
+  rw [hci] at a1; rw [hcj] at b1; rw [hxi] at a3; rw [hxj] at b3
+  cases a1; cases b1; cases a3; cases b3
+  constructor
+  · intro h; subst h; rw [a2] at b2; cases b2; rw [← a4, ← b4]
+  · intro h
+    -- strictly increasing labels: equal keys force equal positions
+    have hinc := post.labels_inc
+    have h1 := List.getElem?_eq_some_iff.mp a2
+    have h2 := List.getElem?_eq_some_iff.mp b2
+    obtain ⟨hl1, e1⟩ := h1
+    obtain ⟨hl2, e2⟩ := h2
+    rcases Nat.lt_trichotomy ci cj with hlt | heq | hgt
+    · have := List.pairwise_iff_getElem.mp hinc ci cj hl1 hl2 hlt
+      rw [e1, e2, a4, b4, h] at this; exact absurd this (Nat.lt_irrefl _)
+    · exact heq
+    · have := List.pairwise_iff_getElem.mp hinc cj ci hl2 hl1 hgt
+      rw [e1, e2, a4, b4, h] at this; exact absurd this (Nat.lt_irrefl _)
+
+/-- a null first key gives the empty prefix (the caller then takes the general route) -/
+theorem monotonic_null_first {α : Type} (key : α → Nat) (isNull : α → Bool) (lt gt : α → α → Bool)
+    (hord : Mono.OrderOK key isNull lt gt) (x : α) (xs : List α) :
+    (monotonicFactorization lt gt isNull (x :: xs)).1 = 0 ↔ isNull x = true :=
+  Mono.monotonic_cut_zero key isNull lt gt hord x xs
+
+/-- non-vacuity: float-like keys (`none` = NaN; comparisons with NaN are false) -/
+example :
+    monotonicFactorization (fun a b => match a, b with | some x, some y => decide (x < y) | _, _ => false)
+      (fun a b => match a, b with | some x, some y => decide (x > y) | _, _ => false) (fun a => a.isNone)
+      [some 1, some 1, some 4, none, some 5] = (3, [0, 0, 1], [some 1, some 4]) := by decide
 
 end GV.C02
